@@ -244,15 +244,17 @@ func (s *Synchronizer) OnRemoteTimeout(timeout hotstuff.TimeoutMsg) {
 			return
 		}
 	}
-	if s.config.HasAggregateQC() && timeout.View == currView && s.timeouts.completesQuorumWithout(timeout, s.config.ID()) {
-		// a quorum of the others has timed out in this view; the view is lost. The aggregate QC that
+	s.logger.Debug("OnRemoteTimeout (advancing view): ", timeout)
+	s.advanceView(timeout.SyncInfo)
+
+	if s.config.HasAggregateQC() && timeout.View == s.state.View() && s.timeouts.completesQuorumWithout(timeout, s.config.ID()) {
+		// a quorum of the others has timed out in the view this replica is in (after the sender's
+		// certificates have been taken into account); the view is lost. The aggregate QC that
 		// ends it must know this replica's high QC too: the vote collector alone holds the newest QC,
 		// and paired with an aggregate QC that does not contain it, its own proposal for the next view
 		// would not verify. So this replica times out as well before the quorum is complete.
 		s.OnLocalTimeout()
 	}
-	s.logger.Debug("OnRemoteTimeout (advancing view): ", timeout)
-	s.advanceView(timeout.SyncInfo)
 
 	timeoutList, quorum := s.timeouts.add(timeout)
 	if !quorum {
